@@ -803,6 +803,7 @@ def c08(ctx):
         fn = re.findall(r"detected panic in function `([^`]+)`", out)
         ctx.violation("the optimised build contains a panic path: #[no_panic] wrapper(s) %s no longer link\n%s" % (fn, out[-1500:]),
                       None, no_input=True, tag="nopanic")
+    facts_gate(ctx, "C08")     # source level: the interpreted source returns Ok on new / append* / finalize in every profile
     proof_verdict(ctx, ok)
 
 
